@@ -223,7 +223,7 @@ def valid_stream_descrs(rng, npeers=2, nmsgs=8, terminate=False):
         elif k == "S":
             d.append(f"S.{p}")
         elif k == "D":
-            d.append(f"D.{p}")
+            d.append(f"D.{p}" + (f".{rng.choice([0, 1, 2, 3, 4, 6, 7, 255])}" if rng.chance(40) else ""))
         else:
             d.append(f"U.{p}.{rng.below(2)}")
     if terminate:
